@@ -66,7 +66,7 @@ def r_inv_source(cx):
     cx.count("R-INV-SOURCE", "consumers", n)
 
 
-@rule("R-INV-SCOPE", ["C03"])
+@rule("R-INV-SCOPE", ["C03", "C04"])
 def r_inv_scope(cx):
     if not cx.f.has_fn(NEXT):
         cx.ob("R-INV-SCOPE", "anchor", False, "anchor-missing: RawParameters::next")
